@@ -306,6 +306,20 @@ RUNNERS = {"C02": run_path_c02, "C10": run_path_c10}
 # ---------------------------------------------------------------------------
 # level-synchronous enumeration of the whole tree
 
+def _run_confirmed(runner, menu, path, is_leaf, kwargs):
+    """run one sequence; anything that looks like a watchdog expiry is only believed after the
+    whole sequence has been repeated from scratch with a much larger limit"""
+    dead, vio, tag = runner(menu, path, is_leaf, **kwargs)
+    if any("hang" in (str(v.get("clause")) + " " + str(v.get("detail"))) for v in vio):
+        saved = events.WATCHDOG_S
+        events.WATCHDOG_S = saved * 5
+        try:
+            dead, vio, tag = runner(menu, path, is_leaf, **kwargs)
+        finally:
+            events.WATCHDOG_S = saved
+    return dead, vio, tag
+
+
 def _expand_parent(task):
     runner_name, menu, parent, L, kwargs = task
     runner = RUNNERS[runner_name]
@@ -313,7 +327,7 @@ def _expand_parent(task):
     res = []
     for k, ev in enumerate(items):
         path = parent + [ev]
-        dead, vio, tag = runner(menu, path, len(path) == L, **kwargs)
+        dead, vio, tag = _run_confirmed(runner, menu, path, len(path) == L, kwargs)
         res.append((k, dead, vio, tag))
     return res
 
@@ -334,7 +348,7 @@ def _expand_parent_full(task):
     res = []
     for k, ev in enumerate(items):
         path = parent + [ev]
-        dead, vio, tag = runner(menu, path, len(path) == L, **kwargs)
+        dead, vio, tag = _run_confirmed(runner, menu, path, len(path) == L, kwargs)
         res.append((ev, dead, vio, tag))
     return res
 
